@@ -306,6 +306,18 @@ class FastNetNeuronCommunicator(FastSerialCommunicator):
 
         self.platform.new_switch_data.set()  # Signal that we have new switch data
 
+    def _parse_switch_number(self, msg):
+        """Return the switch number of a local switch message or None if the message is malformed.
+
+        Switch messages carry exactly two hex digits. Anything else is line noise and must not be
+        interpreted as a (different) switch.
+        """
+        if len(msg) == 2 and all(char in '0123456789abcdefABCDEF' for char in msg):
+            return int(msg, 16)
+
+        self.log.warning("Ignoring malformed switch message with payload %r", msg)
+        return None
+
     def _process_switch_open(self, msg):
         """Process local switch open.
 
@@ -314,8 +326,11 @@ class FastNetNeuronCommunicator(FastSerialCommunicator):
             msg: switch number
             remote_processor: Processor which sent the message.
         """
+        num = self._parse_switch_number(msg)
+        if num is None:
+            return
         self.machine.switch_controller.process_switch_by_num(state=0,
-                                                             num=int(msg, 16),
+                                                             num=num,
                                                              platform=self.platform,
                                                              logical=True)
 
@@ -327,8 +342,11 @@ class FastNetNeuronCommunicator(FastSerialCommunicator):
             msg: switch number
             remote_processor: Processor which sent the message.
         """
+        num = self._parse_switch_number(msg)
+        if num is None:
+            return
         self.machine.switch_controller.process_switch_by_num(state=1,
-                                                             num=int(msg, 16),
+                                                             num=num,
                                                              platform=self.platform,
                                                              logical=True)
 
